@@ -95,6 +95,13 @@ ITEMS = [
     ("tree-walk-drops-partials", {"C05": "C05.1"}, "nested directories lose their prefix", [("                self.walk_file_tree(val, partials + [key])", "                self.walk_file_tree(val, [key])")]),
     ("pieces-root-unguarded", {"C05": "C05.1"}, "pieces root read for empty files", [("                roothash = None if not length else val[\"\"][\"pieces root\"]", "                roothash = val[\"\"][\"pieces root\"]")]),
     ("layer-predicate-non-strict", {"C05": "C05.1"}, "length >= piece length looks up piece layers", [("            if self.length > self.piece_length:\n                self.pieces = self.piece_layers[self.root_hash]", "            if self.length >= self.piece_length:\n                self.pieces = self.piece_layers[self.root_hash]")]),
+    ("G28-regress-single-file-by-length-only", {"C05": "C05.1"}, "defect G28 (repaired): single file decided by info.length alone",
+     [("            if leaf is not None and os.path.isfile(self.root):\n                length = leaf[\"length\"]\n", "            if leaf is not None and os.path.isfile(self.root):\n                length = None\n"),
+      ("        length = self.info.get(\"length\")\n        if length is None and self.meta_version > 1:", "        length = self.info.get(\"length\")\n        if False:")], {"quick": True}),
+    ("G29-regress-directory-taken-for-single-file", {"C05": "C05.1"}, "defect G29 (repaired): a directory named like the torrent is returned for a single-file torrent",
+     [("        if root.name == self.name and not single:", "        if root.name == self.name:")], {"quick": True}),
+    ("find-root-accepts-any-directory", {"C05": "C05.1"}, "name comparison dropped", [("        if root.name == self.name and not single:", "        if not single:")]),
+    ("benign-find-root-basename", {"C05": "C05"}, "os.path.basename instead of Path.name", [("        if root.name == self.name and not single:", "        if os.path.basename(root) == self.name and not single:")], {"expect": "clean"}),
     ("benign-while-rewritten", {"C04": "C04", "C16": "C16", "C05": "C05"}, "iterator loop with explicit flag",
      [(_NEXT_NEW, "        done = False\n        while not done:\n            try:\n                return self.process_current()\n            except StopIteration as itererr:\n                if not self.next_file():\n                    done = True\n                    raise StopIteration from itererr\n")], {"expect": "clean"}),
     ("benign-flush-len", {"C04": "C04", "C16": "C16", "C05": "C05"}, "flush guarded by len() > 0", [("        if partial:\n            yield partial\n", "        if len(partial) > 0:\n            yield partial\n")], {"expect": "clean"}),
